@@ -128,6 +128,12 @@ def sample_cfg(name: str, rng, tier: str = "quick", small: bool = True) -> dict:
         if rng.random() < 0.4:
             # 9 = max_demand: a customer may need the whole vehicle (demand == capacity exactly)
             cfg["gen"]["capacity"] = rng.choice([9, 9, 10, 12, 15, 20, 30, 40])
+        # documented generator option: a vehicle smaller than the demand normalisation (default 1.0)
+        if name == "sdvrp" and rng.random() < 0.25:
+            cfg["gen"]["vehicle_capacity"] = rng.choice([0.5, 0.25, 0.75])  # dyadic: exact boundary instances stay exact
+        elif name == "cvrp" and rng.random() < 0.15:
+            cfg["gen"]["vehicle_capacity"] = 0.5
+            cfg["gen"]["capacity"] = rng.choice([18, 20, 30, 40])  # max demand 9: 9/18 fills it exactly
     elif name == "cvrptw":
         cfg["gen"] = {"num_loc": n, "scale": rng.random() < 0.4}
         if rng.random() < 0.4:
@@ -303,6 +309,27 @@ def hand_format(name: str, rows: list, rng):
             r["durations"] = dur
             out.append(r)
         return out, "hand:cvrptw_durations"
+    if name == "op":
+        # per-instance length budgets other than the environment generator's (loaded / hand-made data; a batch
+        # may mix budgets): the budget is part of the instance, not of the environment
+        out = []
+        for r in rows:
+            r = {k: v.clone() for k, v in r.items()}
+            r["max_length"] = r["max_length"] * rng.choice([0.5, 0.75, 1.0, 1.25])
+            out.append(r)
+        return out, "hand:op_budgets"
+    if name in ("pctsp", "spctsp"):
+        # instances whose total prize cannot reach the requirement (the documented "visit everybody instead"
+        # case), mixed with ordinary ones
+        out = []
+        for i, r in enumerate(rows):
+            r = {k: v.clone() for k, v in r.items()}
+            if rng.random() < 0.6:
+                for key in ("deterministic_prize", "stochastic_prize"):
+                    tot = float(r[key].sum())
+                    r[key] = r[key] * (rng.choice([0.5, 0.9]) / max(tot, 1e-9))
+            out.append(r)
+        return out, "hand:pctsp_low_prize"
     return rows, "generator"
 
 
